@@ -9,6 +9,7 @@ sees the bytes.
 """
 import copy
 import json
+import re
 
 # ---------------------------------------------------------------- helpers
 
@@ -586,6 +587,8 @@ def base_pel_specs():
         'MT': {'t': 'MT'},
         'LP': {'t': 'LP', 'name': 'lpar5', 'targets': [0x0001]},  # 23 bytes of content + 1 pad byte
         'UDj': ud_json, 'UDt': ud_text, 'UDh': ud_hex,
+        # declared built-in JSON but not UTF-8: shown as a hex dump of the payload
+        'UDx': {'t': 'UD', 'comp': 0x2000, 'sub': 1, 'ver': 1, 'payload': b'{"a": "caf\xe9"}\0\0'.hex()},
         'ED': {'t': 'ED', 'creator': 'B', 'comp': 0x0100, 'payload': bytes(range(40, 60)).hex()},
         'DH': {'t': 'DH', 'payload': bytes(range(16)).hex()},
         'ZZ': {'t': 'ZZ', 'payload': '00112233'},
@@ -632,6 +635,115 @@ def is_builtin(s, creator):
     return s.get('t') in ('UD', 'ED') and 'id' not in s and creatorIDs.get(c) == 'BMC' and s.get('comp', 0x1000) == 0x2000
 
 
+WS = ' \t\n\r'
+
+
+def text_lines(text):
+    """Reference model of the built-in text format: the lines of the text, non-printable characters replaced by '.'."""
+    if text == '':
+        return []
+    if text.endswith('\n'):
+        text = text[:-1]
+    return [''.join(c if 0x20 <= ord(c) <= 0x7e else '.' for c in ln) for ln in text.split('\n')]
+
+
+def _strict_json(text):
+    def rej(tok):
+        raise ValueError('not JSON: ' + tok)
+    v = json.loads(text, parse_constant=rej)
+    json.dumps(v, allow_nan=False)
+    return v
+
+
+def _depth(text):
+    d = best = 0
+    for c in text:
+        if c in '[{':
+            d += 1
+            best = max(best, d)
+        elif c in ']}':
+            d -= 1
+    return best
+
+
+def builtin_expect(s):
+    """What a BMC built-in user-data section must show, from its payload alone.
+    ('json', v): exactly the JSON value v; ('text', [accepted line lists]); ('raw',): the payload as a hex dump;
+    ('json-or-raw', v); ('raw-or-any',): hex dump, or any value (huge integers, deep nesting, overflowing floats)."""
+    sub, P = s.get('sub', 0), payload_of(s)
+    if sub == 1:
+        try:
+            t = P.decode('utf-8')
+        except UnicodeDecodeError:
+            return ('raw',)
+        core_must = re.sub('[%s]*\0*$' % WS, '', t.lstrip(WS))      # leading blanks, trailing blanks then NUL padding
+        core_may = t
+        while core_may and (core_may[0].isspace() or core_may[0] == '\0'):
+            core_may = core_may[1:]
+        while core_may and (core_may[-1].isspace() or core_may[-1] == '\0'):
+            core_may = core_may[:-1]
+        for core, kind in ((core_must, 'json'), (core_may, 'json-or-raw')):
+            try:
+                v = _strict_json(core)
+                if _depth(core) > 200:          # beyond 200 levels of nesting a hex dump is accepted as well
+                    return ('raw-or-any',)
+                return (kind, v)
+            except json.JSONDecodeError:
+                continue
+            except (ValueError, RecursionError):
+                return ('raw-or-any',)
+        return ('raw',)
+    if sub == 3:
+        readings = [P.decode('latin-1')]
+        try:
+            readings.append(P.decode('utf-8'))
+        except UnicodeDecodeError:
+            readings.append(P.decode('utf-8', errors='replace'))
+        acc = []
+        for t in readings:
+            acc += [text_lines(t.rstrip('\0')), text_lines(t)]
+        return ('text', acc)
+    return ('raw',)
+
+
+def check_builtin(s, doc, creator, env):
+    from mc.ref import hexdump as rhex
+    m = Mismatch()
+    t = s.get('t')
+    if not isinstance(doc, dict):
+        m.append('entry is not an object: %r' % (doc,))
+        return m
+    std3(m, s, doc, s.get('creator', creator) if t == 'ED' else creator, env)
+    rest = {k: v for k, v in doc.items() if k not in ('Section Version', 'Sub-section type', 'Created by')}
+    exp = builtin_expect(s)
+    payload = payload_of(s)
+
+    def is_raw():
+        try:
+            return set(rest) == {'Data'} and rhex.read_default(rest['Data']) == payload
+        except Exception:
+            return False
+
+    def is_value(v):
+        return rest == v if isinstance(v, dict) else rest == {'Data': v}
+    if not payload:
+        return m
+    if exp[0] == 'json' and not is_value(exp[1]):
+        m.append('built-in JSON: section shows %.200r, payload value %.200r' % (rest, exp[1]))
+    elif exp[0] == 'json-or-raw' and not (is_value(exp[1]) or is_raw()):
+        m.append('built-in JSON: section shows %.200r, neither the value %.200r nor the payload bytes' % (rest, exp[1]))
+    elif exp[0] == 'text' and not (set(rest) == {'Data'} and rest['Data'] in exp[1]):
+        m.append('built-in text: section shows %.200r, text lines %.200r' % (rest, exp[1][-2]))
+    elif exp[0] == 'raw' and not is_raw():
+        m.append('payload-lost: Data %.120r does not give back the %d payload bytes' % (rest.get('Data'), len(payload)))
+    elif exp[0] == 'raw-or-any' and not is_raw():
+        try:
+            json.dumps(rest, allow_nan=False)
+        except Exception as e:
+            m.append('built-in JSON: neither the payload bytes nor a JSON value (%s)' % type(e).__name__)
+    return m
+
+
 def check_entry(s, doc, creator, env):
     t = s.get('t')
     if 'id' not in s:
@@ -643,7 +755,9 @@ def check_entry(s, doc, creator, env):
             return check_mt(s, doc, creator, env)
         if t == 'LP':
             return check_lp(s, doc, creator, env)
-        if t in ('UD', 'ED') and (is_builtin(s, creator) or s.get('decoded')):
+        if t in ('UD', 'ED') and is_builtin(s, creator):
+            return check_builtin(s, doc, creator, env)
+        if t in ('UD', 'ED') and s.get('decoded'):
             m = Mismatch()
             std3(m, s, doc, s.get('creator', creator) if t == 'ED' else creator, env)
             return m
